@@ -18,6 +18,9 @@ From MV Require Rec.Frozen.
 From MV Require IH5.Stub.
 From MV Require IH5.MergeRun.
 From MV Require IH5.Client.
+From MV Require Toc.Sync.
+From MV Require Toc.Query.
+From MV Require Toc.SelfDesc.
 Import ListNotations.
 Local Open Scope string_scope.
 
@@ -40,5 +43,8 @@ Definition dispatch (x : sx) : sx :=
   | L [A "c10"; c] => IH5.Stub.run_c10 c
   | L [A "c05"; c] => IH5.MergeRun.run_c05 c
   | L [A "c09"; c] => IH5.Client.run_c09 c
+  | L [A "c06"; c] => Toc.Sync.run_c06 c
+  | L [A "c07"; c] => Toc.Query.run_c07 c
+  | L [A "c20"; c] => Toc.SelfDesc.run_c20 c
   | _ => sx_bad "dispatch"
   end.
